@@ -54,6 +54,9 @@ TLoad ==
                           <<l, "Load", "err", "EBADMSG, ENOPROTOOPT or a system errno">>)
                /\ Explain(ev.cbn = 1, <<l, "Load", "cbn", 1>>)
                /\ Explain(FailOK(ev), <<l, "Load", "cbcat", "category matching errno, one line">>)
+               /\ Explain(ev.kind \in {"yamlfile", "yamlstring"} =>
+                             ev.dest \in {"unchanged", "empty"},
+                          <<l, "Load", "dest", "unchanged or empty, not a half-built tree">>)
                /\ Explain(AfterFailOK(ev), <<l, "Load", "usable", 1>>)
        /\ Explain(Explains(ev), <<l, "Load", "contract", "Explains">>)
        (* binding of the line automata: the harness's formulation and the  *)
